@@ -882,6 +882,12 @@ func check(f *fn, verbose bool) {
 		violate("correspondence", "C01:ssa-wellformed-rejects", "the model's wellFormed rejects a function built by the generator", text, "1", "0")
 	}
 
+	if !*skipWf {
+		if a := ask("c01ssa wfstages " + text); a != "111" {
+			violate("correspondence", "C01:ssa-wellformed-not-preserved", "WF with the certificate of the input: input / after phi / after nop", text, "111", a)
+		}
+	}
+
 	if hookAvailable {
 		if !checkStages(f, text, keys, verbose) {
 			return
